@@ -276,4 +276,20 @@ pub fn run(r: &mut Runner) {
             }
         });
     }
+    {
+        // relational pairs: (x, x), (x, -x), (x, 2x), (x, x/2), (x, neighbours of x), (x, hi(x)), (x, +-1) in both orders
+        let xs: Vec<[f64; 2]> = crate::fx::grid(if quick { &[-30, 0, 29] } else { &[-30, -29, -10, -1, 0, 1, 10, 29] }, quick, 171);
+        let ps = crate::fx::relational_pairs(&xs);
+        let np = ps.len();
+        r.notes.push(format!("relational pairs for atan2: {} pairs from {} operands (x with x, -x, 2x, x/2, its double-double neighbours, its high word, +-1; both argument orders)", np, xs.len()));
+        r.par("relational pairs: atan2", np.div_ceil(64), 2 * np as u64, |c, l| {
+            for i in (c * 64)..((c + 1) * 64).min(np) {
+                let (a, b) = ps[i];
+                let v = judge_atan2(a, b, Some(l));
+                rec.record(l, (9u64 << 55) + 2 * i as u64, v);
+                let v = judge_atan2(b, a, Some(l));
+                rec.record(l, (9u64 << 55) + 2 * i as u64 + 1, v);
+            }
+        });
+    }
 }
